@@ -130,6 +130,10 @@ def history_case(rng):
             "coq": coq, "nontrivial": len(all_mats) >= 1 and sum("EvExec" in e for e in events) >= 2, "key": coq}
 
 
+class UserMarker(dr.MarkerRelation):
+    """A marker relation defined outside the library."""
+
+
 def processor_history(rng):
     """Several process()+execute calls, by one real Processor, over trees that share a materialization node whose
     upstream crosses engines (and may hold a chain with a statically empty branch, pruned by the Processor)."""
@@ -152,8 +156,13 @@ def processor_history(rng):
                 pass
         return rel
     x = some_ops(some_ops(leaf, rng.choice([0, 1])).transferred_to(dest), rng.choice([0, 1, 2]))
-    shape = rng.choice(["plain", "doomed_rhs", "doomed_lhs", "doomed_rhs"])
-    if shape != "plain":
+    shape = rng.choice(["plain", "doomed_rhs", "doomed_lhs", "doomed_rhs", "user_marker", "user_marker"])
+    if shape == "user_marker":
+        # a user-defined marker (the documented extension point) directly above the transfer, below the materialization
+        x = UserMarker(target=some_ops(leaf, rng.choice([0, 1])).transferred_to(dest))
+        if rng.random() < 0.4:
+            x = some_ops(x, 1)
+    elif shape != "plain":
         doomed = dest.make_doomed_relation(set(x.columns), ["doomed by the harness"], name="D")
         x = x.chain(doomed) if shape == "doomed_rhs" else doomed.chain(x)
     m = x.materialized(name="M1")
